@@ -26,7 +26,7 @@ def run(tier, seed):
     wd = vf.scratch()
     x = vf.model_check(wd, "MC_Convert.tla", "MC_Convert_quick.cfg", "X Convert")
     univ = vf.emit_scenarios(wd, "MC_Convert.tla", "MC_Convert_emit.cfg", minimum=15000, timeout=900)
-    chosen = rnd.sample(univ, 400 if quick else 8000)
+    chosen = rnd.sample(univ, 400) if quick else univ   # thorough: the whole emitted universe
     scenarios = [{"id": i + 1, "src": s["src"], "tgt": s["tgt"], "row": s["row"]} for i, s in enumerate(chosen)]
     vf.log(f"[C12] X: {x.distinct} (src, tgt, row) triples; scenarios {len(scenarios)}")
     out, verdict, vr, tp = PIPE.run(vh, wd, scenarios, seed)
